@@ -218,6 +218,11 @@ func planClusterNonPushdown(opts *Opts, query *sql.Query) (core.FlatRowSource, e
 			return nil, fmt.Errorf("FROM clause not found!")
 		}
 		indexOfFrom := fromIndexes[0]
+		if indexOfFrom > len(sqlString) {
+			// sqlString was cut at a 'group by ' that comes before this FROM (e.g. in
+			// a subquery inside the select list), nothing sensible can be built
+			return nil, fmt.Errorf("Unable to plan non-pushdown query, FROM clause found after first GROUP BY")
+		}
 		sqlString = fmt.Sprintf("%v, %v %v", sqlString[:indexOfFrom], query.HavingSQL, sqlString[indexOfFrom:])
 	}
 
